@@ -54,9 +54,9 @@ MODULES = {
                       "haversine_grad", "cosine_grad", "hellinger_grad", "symmetric_kl_grad", "correlation_grad",
                       "spherical_gaussian_energy_grad", "diagonal_gaussian_energy_grad"],
         "sigs": {},
-        "files": ["L_grads.v"],
+        "files": ["L_grads.v", "K_grads.v"],
         "eval": "E_grads.v",
-        "deps": ["thm/T_link_arr.v", "model/M_grads.v", "model/V_grads.v"],
+        "deps": ["thm/T_link_arr.v", "model/M_grads.v", "model/V_grads.v", "thm/T_grads.v", "prop/P_C14.v"],
     },
     # C01: the two numba kernels of the fuzzy-neighbourhood construction.  compute_membership_strengths is translated for
     # return_dists=False, bipartite=False (the values fuzzy_simplicial_set's default path and the harness use).
